@@ -64,7 +64,7 @@ CLAIMED = {
     "C12": (
         "S-OUT",
         "deterministic simulation: seeded search over requests (every function code, every header-flag combination, supported/unsupported/unknown/truncated/garbage objects, mixed multi-header requests, oversize echoes) in every session state against the real outstation; oracle = reference decoder + correlation rules + clear-cut rejection table",
-        "Seeded exploration (not exhaustive): every transmitted fragment must fit the configured tx size, decode with the reference decoder consuming every octet, carry function 129/130 with the right UNS/FIR/FIN/CON bits and a sequence number that answers a request (solicited) or continues the unsolicited numbering; CONFIRM and the no-ack functions are never answered; requests that are clear-cut rejections (function not implemented, truncated data, start>stop, unknown qualifier, definitely unknown object, WRITE of IIN other than clearing restart, non-control object in a control request, freeze of a non-counter) must be answered with IIN2 error bits.",
+        "Seeded exploration (not exhaustive): every transmitted fragment must fit the configured tx size, decode with the reference decoder consuming every octet, carry function 129/130 with the right UNS/FIR/FIN/CON bits and a sequence number that answers a request (solicited) or continues the unsolicited numbering; CONFIRM and the no-ack functions are never answered; requests that are clear-cut rejections (function not implemented, truncated data, start>stop, unknown qualifier, definitely unknown object, WRITE of IIN other than clearing restart, non-control object in a control request, freeze of a non-counter, READ headers with an index-prefix qualifier) must be answered with IIN2 error bits, also when the request is a READ deferred behind an unsolicited confirm wait and answered after the series ends.",
         "Trusted: reference decoder and object size table, the clear-cut rejection table (kept to cases on which standard and library cannot disagree; everything else is don't-care), simulated phys (H2). Response function codes (>=129) sent as 'requests' and fragments larger than the rx buffer are outside the statement.",
         "DESIGN.md section 6 C12",
     ),
@@ -85,7 +85,7 @@ CLAIMED = {
     "C16": (
         "S-MAST",
         "deterministic simulation: seeded search over user request mixes (commands of all five variations, reads, time syncs, restarts, dead-band writes, link checks, file reads), per-step reply deviations (echo mutations, IIN2, sequence/source/flags, late, silence, file block/status), and faults placed before/between/after protocol steps (connection cut, refused/hanging reconnects, disable, association removal, master task dropped, unrelated channel traffic) against the real master over a simulated TCP seam; oracle = outcome obligations evaluated over the recorded history",
-        "Seeded exploration (not exhaustive): requests are submitted singly and in bursts (queue limits 1, 2, 16) to the real ClientTask + MasterTask; the scripted outstation answers each protocol step faithfully or with a reply that differs in one status, value bit, index, object count, order, header count or qualifier, rejects with IIN2, uses a wrong sequence/source/flag nibble, answers late or not at all; file reads are served by a scripted g70 file server (wrong block number, error status, lost blocks, reader aborts). The oracle checks on its own record of the wire: (R1) every request - also after cuts, disable, removal and dropping the master task - has exactly one outcome by the end of a 60 s quiet tail, and a FileReader exactly one terminal callback, preceded by `opened` and the blocks in order with the right contents; (R2) every task ends at most one response timeout after its last request or accepted fragment, and a link status check one timeout after its request frame; (R3) a command reports success only if every step was answered within its timeout by a byte-identical all-SUCCESS echo from the addressed outstation with the request sequence number, any other request only if every step had an acceptable answer; (R4) OPERATE is written only after such an echo of its SELECT, with sequence + 1 and identical objects; (R5) a request whose every step was faithfully answered with nothing else going on succeeds; (R6) a lost reply yields ResponseTimeout at written + timeout, an error status BadStatus, an IIN2 rejection the IIN2 error.",
+        "Seeded exploration (not exhaustive): requests are submitted singly and in bursts (queue limits 1, 2, 16) to the real ClientTask + MasterTask; the scripted outstation answers each protocol step faithfully or with a reply that differs in one status, value bit, index, object count, order, header count or qualifier, rejects with IIN2, uses a wrong sequence/source/flag nibble, answers late or not at all; file reads are served by a scripted g70 file server (wrong block number, error status, lost blocks, reader aborts). The oracle checks on its own record of the wire: (R1) every request - also after cuts, disable, removal and dropping the master task - has exactly one outcome by the end of a 60 s quiet tail, and a FileReader exactly one terminal callback, preceded by `opened` and the blocks in order with the right contents; (R2) every task ends at most one response timeout after its last request or accepted fragment, and a link status check one timeout after its request frame; (R3) a command reports success only if every step was answered within its timeout by a byte-identical all-SUCCESS echo from the addressed outstation with the request sequence number, any other request only if every step had an acceptable answer; (R4) OPERATE is written only after such an echo of its SELECT, with sequence + 1 and identical objects; (R5) a request whose every step was faithfully answered with nothing else going on succeeds; (R6) a lost reply yields ResponseTimeout at written + timeout, an error status BadStatus, an IIN2 rejection the IIN2 error; (R9) a link status check ends no later than one response timeout after its request frame was written, whatever else arrives; (R10) a request fails with Shutdown only if the master was shut down (or its association removed, or its file reader aborted the transfer itself). Configurations include transmit buffers smaller than the generated command set, an application without a clock, directory and file-info requests, and replies followed at once by end-of-file.",
         "Trusted: reference codec, the scripted outstation's labelling of what it sent, recording stubs, tokio paused clock. Tasks are paired with user requests per association first-in first-out with a consistency check (function code, times, outcome); runs where the pairing is not unique (0.6 %) only get R1/R9. R5/R6 apply only to undisturbed requests (connected throughout, no fault operation, queue not full) whose steps saw nothing but clearly ignorable fragments before the decisive one; arrivals in the same millisecond as the deadline or the task start are don't-care. A connect attempt that nobody answers is ended after 21 s (operating system SYN timeout) because requests are not serviced while the client task sits in connect().",
         "DESIGN.md section 6 C16",
     ),
@@ -99,7 +99,7 @@ CLAIMED = {
     "C19": (
         "S-MAST",
         "deterministic simulation: seeded search over sets of 1..4 associations on one channel, polls with arbitrary periods, recognisable user requests submitted at arbitrary virtual times, prompt/late/missing responses, poll demand/removal, keep-alive settings and enable/disable/cut toggles against the real master over a simulated TCP seam in virtual time; oracle = schedule monitor over the virtual timestamps of every request written and every user call, plus the executor's poll count of the master task",
-        "Seeded exploration (not exhaustive): every user request is a DIRECT_OPERATE with a unique index and every poll of an association has its own class set, so each request on the wire is attributed. The monitor requires: (S1) no task starts and no link status request is written while another request is unanswered and has not timed out; (S2) user requests of one association go out in submission order; (S3) nothing but a user request starts while a user request submitted earlier (to any association) is waiting; (S4) a poll starts no earlier than its previous completion (or its addition) + period unless demanded; (S5) a poll that became due on an idle, connected channel starts within 2 ms, and none is left due for more than a second at the end; (S6) no association is served twice in a row while a user request or a due poll of another association has been waiting since before the first of the two turns; (S7) a keep-alive link status request is written only to an association with keep-alive configured and not before the configured silence has elapsed since the last frame the master took from that outstation (hook H5); (S8) the master task is polled at most 200 times per recorded event (it sleeps until the earliest deadline), and the kernel's spin detector (20000 polls without virtual time or input advancing) is a violation.",
+        "Seeded exploration (not exhaustive): every user request is a DIRECT_OPERATE with a unique index and every poll of an association has its own class set, so each request on the wire is attributed. The monitor requires: (S1) no task starts and no link status request is written while another request is unanswered and has not timed out; (S2) user requests of one association go out in submission order; (S3) nothing but a user request starts while a user request submitted earlier (to any association) is waiting; (S4) a poll starts no earlier than its previous completion (or its addition) + period unless demanded; (S5) a poll that became due on an idle, connected channel starts within 2 ms, and none is left due for more than a second at the end; (S6) no association is served twice in a row while a user request or a due poll of another association has been waiting since before the first of the two turns; (S7) a keep-alive link status request is written only to an association with keep-alive configured and not before the configured silence has elapsed since the last frame the master took from that outstation (hook H5); (S7b) with keep-alive configured, an open connection and nothing taken from that outstation for the configured silence (+ one response timeout if a task is in flight), a link status request has been written; (S8) the master task is polled at most 200 times per recorded event (it sleeps until the earliest deadline), and the kernel's spin detector (20000 polls without virtual time or input advancing) is a violation.",
         "Trusted: reference codec, recording stubs, hook H5 for the moment a fragment or link-layer frame reaches the master's application layer, tokio paused clock. The due time of a poll is unknown (rules S4-S6 suspended for it) after a poll of its association ran whose request never reached the outstation (connection cut), until it runs again. Ties are avoided by only counting user requests submitted in an earlier millisecond.",
         "DESIGN.md section 6 C19",
     ),
@@ -120,7 +120,7 @@ CLAIMED = {
     "C01": (
         "S-OUT",
         "deterministic simulation: seeded search over hostile byte streams (well-formed, mutated, extreme-field, arbitrary application octets in valid framing, link-level garbage and frames cut short), the protocol state in which they arrive (idle, solicited / unsolicited confirm wait, mid series, selection held, task outstanding), chunkings, decode levels, buffer sizes, link error modes and reconnects, against the real outstation (engine S-OUT) and the real master (engine S-MAST); oracle = no panic / spin / hang in any poll of the endpoint task plus a keeps-serving probe at the end of every run",
-        "Seeded exploration (not exhaustive). The endpoint tasks run under the simulation kernel with overflow checks and debug assertions on; a panic in any poll (caught per task, location reported), more than 20000 polls without virtual time or input advancing (spin) and a run that does not finish (watchdog) are violations. Outstation scenario: a hostile master drives the real outstation into idle / confirm waits / multi-fragment series / selection and injects requests of every function code, mutations (bit flips, truncation, extension, fields forced to 0/1/255/65535, ranges ending at 65535, maximal counts, free-format and octet-string headers), arbitrary octets up to the receive buffer, and link-level garbage; with decode level everything a formatting subscriber is installed so every Display path runs. Master scenario: hostile outstations answer reads, commands, time syncs, restarts, file transfers, start-up tasks and polls, and talk while the master is idle, with the same classes of input as responses and unsolicited responses. Probe: after the input stops and all timeouts have lapsed (Close mode after link-level garbage: on the next session; otherwise on the same one, with padding frames pushing a cut-short frame out of the parser) the outstation must answer a link status request and a DELAY_MEASURE, and the master must complete a faithfully answered user read.",
+        "Seeded exploration (not exhaustive). The endpoint tasks run under the simulation kernel with overflow checks and debug assertions on; a panic in any poll (caught per task, location reported), more than 20000 polls without virtual time or input advancing (spin) and a run that does not finish (watchdog) are violations. Outstation scenario: a hostile master drives the real outstation into idle / confirm waits / multi-fragment series / selection and injects requests of every function code, mutations (bit flips, truncation, extension, fields forced to 0/1/255/65535, ranges ending at 65535, maximal counts, free-format and octet-string headers), arbitrary octets up to the receive buffer, and link-level garbage; with decode level everything a formatting subscriber is installed so every Display path runs. Master scenario: hostile outstations answer reads, commands, time syncs, restarts, file transfers, start-up tasks and polls, and talk while the master is idle, with the same classes of input as responses and unsolicited responses. Probe: after the input stops and all timeouts have lapsed (Close mode after link-level garbage: on the next session; otherwise on the same one, with padding frames pushing a cut-short frame out of the parser) the outstation must answer a link status request and a DELAY_MEASURE, and the master must complete a faithfully answered user read. In the master scenario every started task must also end within its last progress (request written or fragment accepted) + the response timeout: input the master ignores may not keep a task waiting.",
         "Trusted: the kernel's panic capture and spin budget, reference codec for building the probe, the recording stubs. The probe verdict is only given when the script still ends with the generator's epilogue (the minimiser may not remove the pause, padding or reconnect that make the probe meaningful). Configurations cover rx 249..2048, tx 249..2048, event buffers 3/20, both link error modes, decode none/all; other decode-level combinations are not sampled individually.",
         "DESIGN.md section 6 C01",
     ),
